@@ -19,6 +19,11 @@ THEOREMS = ['Vakt.C13.eq_iff_canon', 'Vakt.C13.eq_iff_fields', 'Vakt.C13.eqv_equ
             'Vakt.C13.empty_forms_equal', 'Vakt.sortKV_perm_eq',
             'Vakt.C13.inquiry_roundtrip', 'Vakt.C13.inquiry_roundtrip_equal', 'Vakt.C13.inquiry_unknown_key_refused']
 EXTRA_IMPORTS = ['Props.C13Json']
+# obligation over what was translated from /repo/vakt/guard.py in this run: Inquiry.__init__ (its four attribute writes as
+# effects on the object) is the model's Inquiry.mk' - falsy arguments become '' / {} (lean/Gen/EquivInquiry.lean)
+EXTRA_BUILD = ['+Gen.EquivInquiry']
+GEN_IMPORTS = ['Gen.EquivInquiry']
+GEN_THEOREMS = ['Vakt.GenEquiv.gen_inquiry_init', 'Vakt.GenEquiv.translatedInquiry_covers']
 FLOOR = {'quick': 500, 'thorough': 10000}
 ASSUMPTIONS = ['that CPython\'s hash of a tuple of ints does not depend on PYTHONHASHSEED is a runtime fact, observed by '
                'recomputing every hash in fresh interpreters with different seeds, not proved',
